@@ -331,7 +331,7 @@ class Gen:
         if x < 0.9:
             return r.choice(["\n", "\t", "  ", "\n  ", " \n"])
         if self.comments_ok and after in ("(", ",", "=", None) and before not in (",", ")", ";"):
-            return r.choice(["/* c */", "/**/", "/* ( */", "/* , */", "/** n **/", "/***/", "/* a * b */"])
+            return r.choice(["/* c */", "/**/", "/* ( */", "/* , */", "/** n **/", "/***/", "/* a * b */", "/* see #1 */", "/*#2*/"])
         return " "
 
     def render(self, insts, schema=None, shuffle=True, header=None, comments_in_records=True):
